@@ -23,8 +23,14 @@ void htp_log(htp_connp_t *connp, const char *file, int line, enum htp_log_level_
 #ifndef DC
 #define DC 0
 #endif
+#ifndef ESCQ
+#define ESCQ 1
+#endif
+#ifndef NAMESYM
+#define NAMESYM 0
+#endif
 #ifndef VARIANT
-#define VARIANT 0   /* 0 text part; 1 name with an escaped quote; 2 file part (filename after name); 3 text part + Content-Type line */
+#define VARIANT 0   /* 0 text part; 1 name with an escaped quote inside; 2 file part (filename after name); 3 text part + Content-Type line; 4 name ending in an escaped quote (ESCQ=1) or backslash (ESCQ=0) */
 #endif
 static const char H1[]="Content-Disposition: form-data; name=\"";
 static htp_cfg_t CFG;
@@ -45,9 +51,20 @@ void harness(void){
     p->multipart.boundary_count=1;                       /* the first boundary has been seen */
     size_t n=0; for(size_t i=0;i<sizeof(H1)-1;i++) line[n++]=(unsigned char)H1[i];
     /* encoded name */
+#if NAMESYM
     unsigned char x0=in_u8(), x1=in_u8(); __CPROVER_assume(name_byte_ok(x0) && name_byte_ok(x1));
-#if VARIANT==1
+#else
+    unsigned char x0='a', x1='b';       /* name bytes literal: this query is about the cuts and the data bytes */
+#endif
+#if VARIANT==4
+    unsigned char q4=(ESCQ)?'"':'\\';
+    line[n++]=x0; line[n++]='\\'; line[n++]=q4; name[0]=x0; name[1]=q4; nname=2; (void)x1;
+#elif VARIANT==1
+#if NAMESYM
     unsigned char q=in_bool()?'"':'\\';
+#else
+    unsigned char q='"';
+#endif
     line[n++]=x0; line[n++]='\\'; line[n++]=q; line[n++]=x1; name[0]=x0; name[1]=q; name[2]=x1; nname=3;
 #else
     line[n++]=x0; line[n++]=x1; name[0]=x0; name[1]=x1; nname=2;
@@ -55,7 +72,12 @@ void harness(void){
     line[n++]='"';
 #if VARIANT==2
     {   static const char F1[]="; filename=\""; for(size_t i=0;i<sizeof(F1)-1;i++) line[n++]=(unsigned char)F1[i];
-        unsigned char f0=in_u8(); __CPROVER_assume(name_byte_ok(f0)); line[n++]=f0; fname[0]=f0; nfname=1; line[n++]='"'; }
+#if NAMESYM
+        unsigned char f0=in_u8(); __CPROVER_assume(name_byte_ok(f0));
+#else
+        unsigned char f0='f';
+#endif
+        line[n++]=f0; fname[0]=f0; nfname=1; line[n++]='"'; }
 #endif
     line[n++]=CR; line[n++]=LF;
     for(size_t i=0;i<ND;i++) dat[i]=in_u8();
